@@ -40,7 +40,7 @@
      a set with references to other sets keeps every object only if it has nothing but references
      (witness for the mixed case = known finding). *)
 From Coq Require Import ZArith List Bool.
-From A1 Require Import Base.Bytes Leaf.BerTL Rt.Types Rt.Comb Rt.Der Rt.DerProofs Rt.Uper Rt.OpenType Rt.OpenTypeProofs Rt.OpenTypeCell Rt.OpenTypeCellProofs Rt.OpenTypeMatrix Rt.OpenTypeMatrixProofs.
+From A1 Require Import Base.Bytes Leaf.BerTL Rt.Types Rt.Comb Rt.Der Rt.DerProofs Rt.Uper Rt.OpenType Rt.OpenTypeProofs Rt.OpenTypeCell Rt.OpenTypeCellProofs Rt.OpenTypeMatrix Rt.OpenTypeMatrixProofs Rt.UperCounted Rt.Oer Rt.OpenTypeFrame Rt.OpenTypeFrameProofs Rt.OpenTypeContainer Rt.OpenTypeContainerProofs.
 Import ListNotations.
 Local Open Scope Z_scope.
 
@@ -282,3 +282,129 @@ Theorem C18_compile_objs_mixed_refuted :
   exists (s : eset nat), compile_objs s <> spec_objs s /\ exists o, In o (spec_objs s) /\ ~ In o (compile_objs s).
 Proof. exact compile_objs_mixed_refuted. Qed.
 Print Assumptions C18_compile_objs_mixed_refuted.
+
+(* ---------------- round 4: the governing SEQUENCE of any shape (Rt/OpenTypeFrame.v) and the container of an
+   open type (Rt/OpenTypeContainer.v).
+   - the reference `{@r}` / `{@.r}` resolves to the member whose name EQUALS r: the first such member, THE member
+     of that name when member names are distinct, at the position of r whatever the other members are called;
+     no member of that name: no selector (the compiler refuses);
+   - the generated selector of an open type is a function of the NAMED member alone (its class field's column and
+     its value): frames that agree on that member select the same row whatever the other members hold;
+   - the prefix look-up (strncmp up to the first dot; seeded change C18-8) is none of that: witnesses;
+   - the UPER reader accepts a container exactly when the selected type decodes from it and at most 7 zero bits
+     are left, or nothing was read and the container is one 00 octet: a container with a whole octet (or more)
+     left over is rejected, for every type, container and continuation; the relaxed test (C18-9) accepts 00 00
+     as NULL: witness;
+   - the OER reader as it is returns the inner decoder's value without comparing `consumed` with the container:
+     whatever it accepts is a PREFIX reading (partial); "the container is used up" is refuted by 02 00 00 under a
+     NULL row (finding C18-oer-open-type-leftover), and holds of the strict reader. ---------------- *)
+
+Theorem C18_reference_resolves_exact : forall (ms : list name) (r : name) (i : nat), find_name ms r = Some i ->
+  nth_error ms i = Some r /\ (forall j, (j < i)%nat -> nth_error ms j <> Some r).
+Proof. exact find_name_exact. Qed.
+Print Assumptions C18_reference_resolves_exact.
+
+Theorem C18_reference_unresolved : forall (ms : list name) (r : name), find_name ms r = None <-> ~ In r ms.
+Proof. exact find_name_none. Qed.
+Print Assumptions C18_reference_unresolved.
+
+Theorem C18_reference_resolves_named : forall (ms : list name) (r : name) (i : nat),
+  NoDup ms -> nth_error ms i = Some r -> find_name ms r = Some i.
+Proof. exact find_name_nodup. Qed.
+Print Assumptions C18_reference_resolves_named.
+
+Theorem C18_reference_independent_of_other_names : forall (pre pre' post post' : list name) (r : name),
+  ~ In r pre -> ~ In r pre' -> length pre = length pre' ->
+  find_name (pre ++ r :: post) r = find_name (pre' ++ r :: post') r.
+Proof. exact find_name_independent. Qed.
+Print Assumptions C18_reference_independent_of_other_names.
+
+Theorem C18_selector_reads_named_member : forall (ms : list member) (rows : list (list Z)) (s r : name) (i : nat) (m : member),
+  ref_name s = Some r -> NoDup (map m_name ms) -> nth_error ms i = Some m -> m_name m = r ->
+  select_named ms rows s = select_member m rows.
+Proof. exact select_named_by_name. Qed.
+Print Assumptions C18_selector_reads_named_member.
+
+Theorem C18_selector_ignores_other_members : forall (ms ms' : list member) (rows : list (list Z)) (s r : name) (i : nat) (m : member),
+  ref_name s = Some r -> map m_name ms = map m_name ms' -> NoDup (map m_name ms) ->
+  nth_error ms i = Some m -> nth_error ms' i = Some m -> m_name m = r ->
+  select_named ms rows s = select_named ms' rows s.
+Proof. exact select_named_other_members. Qed.
+Print Assumptions C18_selector_ignores_other_members.
+
+Theorem C18_named_row_sound : forall (col : nat) (v : Z) (rows : list (list Z)) (i : nat), find_row col v rows = Some i ->
+  exists r, nth_error rows i = Some r /\ nth_error r col = Some v /\
+            (forall j rj, (j < i)%nat -> nth_error rows j = Some rj -> nth_error rj col <> Some v).
+Proof. exact find_row_sound. Qed.
+Print Assumptions C18_named_row_sound.
+
+Theorem C18_prefix_lookup_refuted : exists (ms : list name) (r : name) (i : nat),
+  NoDup ms /\ nth_error ms i = Some r /\ find_name ms r = Some i /\ find_prefix ms r <> Some i.
+Proof. exact find_prefix_refuted. Qed.
+Print Assumptions C18_prefix_lookup_refuted.
+
+Theorem C18_prefix_selector_refuted : exists (ms : list member) (rows : list (list Z)) (s : name),
+  NoDup (map m_name ms) /\ select_named ms rows s = Some 0%nat /\ select_named_prefix ms rows s = Some 1%nat.
+Proof. exact select_named_prefix_refuted. Qed.
+Print Assumptions C18_prefix_selector_refuted.
+
+Theorem C18_dotted_reference_refuted : exists (ms : list name) (s : name),
+  resolve_ref ms s = None /\ resolve_prefix ms s = Some 0%nat.
+Proof. exact dotted_reference_refuted. Qed.
+Print Assumptions C18_dotted_reference_refuted.
+
+Theorem C18_uper_container_rule : forall (t : ty) (bytes : list Z) (rest : list bool), bytes_ok bytes ->
+  uper_dec_open t (counted (map byte_bits bytes) ++ rest) =
+  match uper_dec false t (bytes_bits bytes) with
+  | Some (v, pad) => if container_ok (bytes_bits bytes) pad then Some (v, rest) else None
+  | None => None
+  end.
+Proof. exact uper_dec_open_wire. Qed.
+Print Assumptions C18_uper_container_rule.
+
+Theorem C18_uper_container_longer_rejected : forall (t : ty) (bytes : list Z) (rest : list bool) (v : val) (pad : list bool),
+  bytes_ok bytes -> uper_dec false t (bytes_bits bytes) = Some (v, pad) -> (8 <= length pad)%nat ->
+  ~ (length pad = 8%nat /\ length bytes = 1%nat) ->
+  uper_dec_open t (counted (map byte_bits bytes) ++ rest) = None.
+Proof. exact uper_open_leftover_rejected. Qed.
+Print Assumptions C18_uper_container_longer_rejected.
+
+Theorem C18_uper_container_accepts_exhausted : forall (t : ty) (bytes : list Z) (rest : list bool) (v : val) (r : list bool),
+  bytes_ok bytes -> uper_dec_open t (counted (map byte_bits bytes) ++ rest) = Some (v, r) ->
+  r = rest /\ exists pad, uper_dec false t (bytes_bits bytes) = Some (v, pad) /\ pad = repeat false (length pad) /\
+    ((length pad < 8)%nat \/ (length pad = 8%nat /\ length bytes = 1%nat)).
+Proof. exact uper_open_accepts_exhausted. Qed.
+Print Assumptions C18_uper_container_accepts_exhausted.
+
+Theorem C18_container_exhausted : forall (ib pad : list bool) (n used : nat),
+  length ib = (8 * n)%nat -> (used + length pad = 8 * n)%nat -> container_ok ib pad = true ->
+  pad = repeat false (length pad) /\ ((8 * n < used + 8)%nat \/ (used = 0%nat /\ n = 1%nat)).
+Proof. exact container_ok_exhausted. Qed.
+Print Assumptions C18_container_exhausted.
+
+Theorem C18_container_zero_bit_type : forall (ib : list bool) (n : nat),
+  length ib = (8 * n)%nat -> (2 <= n)%nat -> container_ok ib ib = false.
+Proof. exact container_zero_bit_type. Qed.
+Print Assumptions C18_container_zero_bit_type.
+
+Theorem C18_container_relaxed_refuted : exists (t : ty) (bytes : list Z) (v : val),
+  bytes_ok bytes /\ length bytes = 2%nat /\
+  uper_dec_open_with container_relaxed t (counted (map byte_bits bytes)) = Some (v, []) /\
+  uper_dec_open t (counted (map byte_bits bytes)) = None.
+Proof. exact container_relaxed_refuted. Qed.
+Print Assumptions C18_container_relaxed_refuted.
+
+Theorem C18_oer_container_prefix_partial : forall (t : ty) (bs : list Z) (v : val) (r : list Z), oer_dec_open t bs = Some (v, r) ->
+  exists n c r0 left, oer_get_length bs = Some (n, r0) /\ take n r0 = Some (c, r) /\ oer_dec t c = Some (v, left).
+Proof. exact oer_open_prefix_partial. Qed.
+Print Assumptions C18_oer_container_prefix_partial.
+
+Theorem C18_oer_container_exhausted_refuted : exists (t : ty) (bs : list Z) (v : val),
+  oer_dec_open t bs = Some (v, []) /\ oer_dec_open_strict t bs = None.
+Proof. exact oer_open_exhausts_refuted. Qed.
+Print Assumptions C18_oer_container_exhausted_refuted.
+
+Theorem C18_oer_container_strict_exhausts : forall (t : ty) (bs : list Z) (v : val) (r : list Z), oer_dec_open_strict t bs = Some (v, r) ->
+  exists n c r0, oer_get_length bs = Some (n, r0) /\ take n r0 = Some (c, r) /\ oer_dec t c = Some (v, []).
+Proof. exact oer_open_strict_exhausts. Qed.
+Print Assumptions C18_oer_container_strict_exhausts.
